@@ -9,7 +9,7 @@ from .. import gen, lang, sem, stateful, wiring
 PROPERTY = "C04"
 LEVEL = "exploration"
 TIMEOUT = 240
-BUDGET = {"quick": 150, "thorough": 1500}
+BUDGET = {"quick": 600, "thorough": 3600}
 RULE = ("[loop bodies include comparison-based forms: (m < 5) * 7, 12 - (m > lim) * 5, (m < 9) : m + 1, m == 0] "
         "Seeded random programs with unconditional self-referential writes `m.write(f(m.read()))` (f: chain of 1-8 "
         "arithmetic steps over the cell, constants and held inputs: counters, modulo clocks, accumulators, "
